@@ -113,7 +113,13 @@ Definition reopen (s : crstate) : sqstate := durable s.
    of the call without the offending one. *)
 Inductive cop :=
   | Std (o : op)
-  | BulkOverflow (b : Z) (es : list event) (k : nat).
+  | BulkOverflow (b : Z) (es : list event) (k : nat)
+  (* an insert_many whose UPSERT loop raises at bind time (same OverflowError) on the
+     id-carrying event number [k] (0-based among the id-carrying events): the [k] UPDATEs
+     before it have run, the bulk statement is never reached, the finally clause counts
+     every id-carrying event and every row.  [es] are the events of the call without the
+     offending one. *)
+  | UpsertOverflow (b : Z) (es : list event) (k : nat).
 
 (* replace / insert_one / replace_last / delete: the statement, then conditional_commit(1) *)
 Definition single (q : stmt) : list smicro := [SExec q; SCondCommit 1].
@@ -127,6 +133,7 @@ Definition upsert_script (b : Z) (es : list event) : list smicro :=
                      end) es.
 
 (* events_upsert = [e for e in events if e.id is not None];  len(events_upsert) *)
+Definition with_id (es : list event) : list event := filter (fun e => negb (no_id e)) es.
 Definition n_upserts (es : list event) : nat := length (filter (fun e => negb (no_id e)) es).
 
 (* try: <the upserts>; executemany(INSERT ..., event_rows)
@@ -175,6 +182,12 @@ Definition sscript (c : sqstate) (o : cop) : list smicro :=
                        | None => []
                        end));
        SCondCommit (Z.of_nat (n_upserts es + S (length (filter no_id es))))]
+  | UpsertOverflow b es k =>
+      (* the UPDATEs of the first k id-carrying events (an UPDATE addressed to an unknown bucket
+         matches no row, it is not rejected); no executemany ([SExecMany []] = the token model's
+         [ExecMany []], nothing is issued); the offending event is counted *)
+      upsert_script b (firstn k (with_id es)) ++
+      [SExecMany []; SCondCommit (Z.of_nat (S (n_upserts es) + length (filter no_id es)))]
   end.
 
 (* the connection's own view after a micro-step / a script / a call (commits do not change it) *)
@@ -197,6 +210,7 @@ Definition cop_out (c : sqstate) (o : cop) : res out :=
       | None, _ :: _ => Err IntegrityError        (* unknown bucket: the first row is rejected first *)
       | _, _ => Err OtherError                    (* OverflowError when the offending row is bound *)
       end
+  | UpsertOverflow _ _ _ => Err OtherError        (* OverflowError when the offending UPDATE is bound *)
   end.
 
 (* the micro-steps of a whole history issued from the tables [c] *)
@@ -269,6 +283,10 @@ Section Forget.
                     end in
         Commit.InsertManyFailed (upsert_toks b es) (map tokf (map (QInsertEvent b) done))
                                 (S (length (filter no_id es)) - length done)
+    | UpsertOverflow b es k =>
+        let done := firstn k (with_id es) in
+        Commit.InsertManyFailed (upsert_toks b done) []
+                                (S (n_upserts es) - length done + length (filter no_id es))
     end.
 
   Fixpoint forget_hist (c : sqstate) (h : list cop) : list Commit.op :=
